@@ -234,11 +234,30 @@ TRead ==
             /\ Chk("C10", "NoPanic", Ev.panic = "")
             /\ Chk("C10", "ErrorOrAllRowsCorrect",
                    Ev.panic = "" => (Ev.open = "err" \/ Ev.haserr \/ (RowsOf(Ev) = Expected /\ Ev.nexts = Len(Expected))))
+       [] Ev.mode = "foreign" ->
+            /\ Chk("C04", "ReaderDoesNotPanic", Ev.panic = "")
+            /\ Chk("C04", "ReaderAcceptsConformantFile", Ev.panic = "" => (Ev.open = "ok" /\ ~Ev.haserr))
+            /\ Chk("C04", "RowsExact", (Ev.panic = "" /\ Ev.open = "ok" /\ ~Ev.haserr) => RoundTrip(Ev))
+       [] Ev.mode = "unsup" ->
+            /\ Chk("C18", "NoPanic", Ev.panic = "")
+            /\ Chk("C18", "UnsupportedFileRefused", Ev.panic = "" => (Ev.open = "err" \/ Ev.haserr))
+            /\ Chk("C18", "NothingReadFromUnsupportedChunk", Ev.nexts <= Ev.saferows)
        [] Ev.mode = "trunc" ->
             /\ Chk("C11", "NoPanic", Ev.panic = "")
             /\ Chk("C11", "TruncationRejected", Ev.panic = "" => (Ev.open = "err" \/ Ev.haserr))
        [] OTHER -> TRUE
   /\ UNCHANGED <<caseId, schema, cols, maxPage, codecN, recs, batches, snk, wc, faultK, rowsTab>>
+
+\* a foreign file: the rows it logically holds become the expectation; the
+\* harness's own striping (used to produce the file) is re-checked against Dremel!Stripe
+TForeign ==
+  /\ More /\ Ev.ev = "Foreign"
+  /\ l' = l + 1
+  /\ Chk("HARNESS", "ForeignFileSelfCheck", Ev.selfcheck = "")
+  /\ Chk("HARNESS", "ForeignStriping",
+         Len(Ev.entries) = NCols /\ \A c \in 1..NCols : Ev.entries[c] = StripeAll(schema, ColPath(c), Ev.rows))
+  /\ batches' = IF Ev.rows = <<>> THEN <<>> ELSE <<Ev.rows>>
+  /\ UNCHANGED <<caseId, schema, cols, maxPage, codecN, recs, snk, wc, faultK, rowsTab>>
 
 TRows ==
   /\ More /\ Ev.ev = "Rows"
@@ -262,14 +281,14 @@ TSinkCall ==
 
 \* ---------------------------------------------------------------- other lines
 TOther ==
-  /\ More /\ Ev.ev \notin {"Reset", "New", "Add", "Write", "Close", "Read", "Rows", "SinkRun", "SinkCall"}
+  /\ More /\ Ev.ev \notin {"Reset", "New", "Add", "Write", "Close", "Read", "Rows", "Foreign", "SinkRun", "SinkCall"}
   /\ l' = l + 1
   /\ Chk("HARNESS", "DriverPanic", Ev.ev # "DriverPanic")
   /\ UNCHANGED <<caseId, schema, cols, maxPage, codecN, recs, batches, snk, wc, faultK, rowsTab>>
 
 TDone == /\ l = Len(Trace) + 1 /\ PrintT(<<"TRACEDONE", Len(Trace)>>) /\ UNCHANGED vars
 
-Next == TReset \/ TNew \/ TAdd \/ TWrite \/ TClose \/ TRead \/ TRows \/ TSinkRun \/ TSinkCall \/ TOther \/ TDone
+Next == TReset \/ TNew \/ TAdd \/ TWrite \/ TClose \/ TRead \/ TRows \/ TForeign \/ TSinkRun \/ TSinkCall \/ TOther \/ TDone
 Spec == Init /\ [][Next]_vars
 
 \* every line was consumed: one state per line plus the initial state
